@@ -60,7 +60,7 @@ Qed.
 
 Lemma pl_Fr_mono t' v : t' <> t -> Fr s g t' v -> Fr s' g' t' v.
 Proof.
-  intros H HF c0 Hn. rewrite pl_start by exact P. pose proof (pl_lt_mono cf s g t x LI c0 v).
+  intros H HF c0 Hn. rewrite !(pl_start cf s g t x c a k rest P). pose proof (pl_lt_mono cf s g t x LI c0 v).
   specialize (HF c0 (named_thr s s' t' c0 (oth t' H) Hn)). lia.
 Qed.
 
@@ -88,7 +88,7 @@ Lemma pl_PubFresh : PubFresh s' g'.
 Proof.
   intros t' n Hr Ho Hq. destruct (N.eq_dec t' t) as [->|H].
   - exfalso. apply Hq. exact (pl_req_none cf s t x c a k rest P QS).
-  - rewrite (oth t' H) in Hr, Ho, Hq. rewrite pl_start, pl_pubs by exact P. exact (l2_pub _ _ LI t' n Hr Ho Hq).
+  - rewrite (oth t' H) in Hr, Ho, Hq. rewrite !(pl_start cf s g t x c a k rest P), !(pl_pubs cf s g t x c a k rest P). exact (l2_pub _ _ LI t' n Hr Ho Hq).
 Qed.
 
 Lemma pl_req_other th w c' gt :
@@ -107,15 +107,15 @@ Proof.
       split; intros; discriminate.
   - rewrite (oth t' H) in Hin. destruct (l2_help _ _ LI t' f Hin) as [H1 H2]. split.
     + intros c0 w ctl Hc th c' Ho Hq. destruct (pl_req_other th w c' ctl Ho Hq) as (_ & Ho' & Hq').
-      rewrite pl_start, pl_pubs by exact P. exact (H1 c0 w ctl Hc th c' Ho' Hq').
-    + intros c0 w ctl r Hl. rewrite pl_start by exact P. pose proof (pl_lt_mono cf s g t x LI c0 r).
+      rewrite !(pl_start cf s g t x c a k rest P), !(pl_pubs cf s g t x c a k rest P). exact (H1 c0 w ctl Hc th c' Ho' Hq').
+    + intros c0 w ctl r Hl. rewrite !(pl_start cf s g t x c a k rest P). pose proof (pl_lt_mono cf s g t x LI c0 r).
       specialize (H2 c0 w ctl r Hl). lia.
 Qed.
 
 Lemma pl_Answered : Answered s' g'.
 Proof.
   intros w th c' gt Ho Hq Htag. destruct (pl_req_other th w c' gt Ho Hq) as (_ & Ho' & Hq').
-  rewrite (pl_sh cf s t x c a k rest P) in *. rewrite pl_pubs by exact P.
+  rewrite (pl_sh cf s t x c a k rest P) in *. rewrite !(pl_pubs cf s g t x c a k rest P).
   pose proof (l2_ans _ _ LI w th c' gt Ho' Hq' Htag) as H.
   pose proof (pl_lt_mono cf s g t x LI c' (mem (sh s) (LEnv (env_of (mem (sh s) (LCtrl w) - N.land (mem (sh s) (LCtrl w)) TAG_MASK))))).
   lia.
